@@ -5,6 +5,7 @@ import (
 	"fmt"
 	"os"
 	"path/filepath"
+	"sync"
 	"time"
 
 	"github.com/gauss-project/aurorafs/pkg/crypto"
@@ -17,6 +18,13 @@ import (
 type Service struct {
 	dir string
 }
+
+// keyMu serialises creation and replacement of key files within the process.
+// Key's read-then-create and the imports' read-backup-write are several file
+// system operations; without it concurrent first-time Key calls for one name
+// each create, return and store a different key. It is a package variable
+// because several Service values may be opened on the same directory.
+var keyMu sync.Mutex
 
 // New creates new file-based keystore.Service implementation.
 func New(dir string) *Service {
@@ -38,6 +46,9 @@ func (s *Service) Exists(name string) (bool, error) {
 }
 
 func (s *Service) Key(name, password string) (pk *ecdsa.PrivateKey, created bool, err error) {
+	keyMu.Lock()
+	defer keyMu.Unlock()
+
 	filename := s.keyFilename(name)
 
 	data, err := os.ReadFile(filename)
@@ -81,6 +92,9 @@ func (s *Service) ExportKey(name, password string) ([]byte, error) {
 }
 
 func (s *Service) ImportKey(name, password string, keyJson []byte) (err error) {
+	keyMu.Lock()
+	defer keyMu.Unlock()
+
 	_, err = s.read(name, password)
 	if err != nil {
 		return err
@@ -109,6 +123,9 @@ func (s *Service) ImportKey(name, password string, keyJson []byte) (err error) {
 }
 
 func (s *Service) ImportPrivateKey(name, password string, pk *ecdsa.PrivateKey) (err error) {
+	keyMu.Lock()
+	defer keyMu.Unlock()
+
 	_, err = s.read(name, password)
 	if err != nil {
 		return err
